@@ -148,7 +148,7 @@ def suites(tier, seed):
             name = "c02_%s_n%d" % (site["name"], n)
             src += harness_a(site, name)
             stubs |= set(rs.stub_names(("barrier", "fmt") + tuple(site["stubs"])))
-            hs.append(Harness(name, unwind=max(70, n + 20), timeout=1800, site=site["name"],
+            hs.append(Harness(name, unwind=max(70, n + 60), timeout=1800, site=site["name"],
                               desc="%s, message length %d: symbolic key/nonce/ciphertext/tag and MAC output; verdict <=> tag == MAC, MAC input == received ciphertext, key-derivation inputs" % (site["name"], n),
                               bounds={"message_len": n}))
     K = 1 if tier == "quick" else 3
@@ -158,7 +158,7 @@ def suites(tier, seed):
         for n in ([5, 40] if tier == "quick" else [0, 5, 33, 40]):
             name = "c02_secretbox_literal_k%d_n%d" % (i, n)
             src += harness_b_secretbox(name, key, nonce, n)
-            hs.append(Harness(name, unwind=max(70, n + 20), timeout=1800, site="secretbox(literal key)",
+            hs.append(Harness(name, unwind=max(70, n + 60), timeout=1800, site="secretbox(literal key)",
                               desc="literal (key, nonce): MAC key and plaintext bytes vs the harness's XSalsa20; symbolic %d-byte ciphertext" % n, bounds={"message_len": n, "key": "literal (seeded)"}))
         pk = [rnd.randrange(256) for _ in range(32)]; sk = [rnd.randrange(256) for _ in range(32)]; q = [rnd.randrange(256) for _ in range(32)]
         name = "c02_box_literal_k%d" % i
